@@ -197,7 +197,7 @@ def rule_r4(ctx):
     for it in [n for n in g.nodes if n.kind == "iter" and dotted(n.ast.iter) == lv]:
         tv = it.ast.target.id if isinstance(it.ast.target, ast.Name) else None
         for b in g.nodes:
-            if b.kind == "branch" and isinstance(b.ast, ast.Compare) and any(x is b.ast for x in ast.walk(it.ast)) and dotted(b.ast.left) == tv:
+            if b.kind == "branch" and isinstance(b.ast, ast.Compare) and any(x is getattr(b.ast, "_negated_from", b.ast) for x in ast.walk(it.ast)) and dotted(b.ast.left) == tv:
                 op = b.ast.ops[0]
                 comp = b.ast.comparators[0]
                 try:
@@ -225,7 +225,8 @@ def rule_r4(ctx):
     if not ok_member:
         ctx.r.violation(rid, key_of(f, None, "no-membership-test"), "no loop refuses transfer codings other than 'chunked'", f.loc(s.ast))
     # (iii) exactly one
-    cnt = [(t, pol) for (t, pol) in guards_of(g, s) if isinstance(t, ast.Compare) and isinstance(t.left, ast.Call) and dotted(t.left.func) == "len"
+    cnt = [(t, pol) for (t, pol) in guards_of(g, s) if isinstance(t, ast.Compare) and isinstance(t.left, ast.Call)
+           and (dotted(t.left.func) == "len" or (dotted(t.left.func) == lv + ".count" and len(t.left.args) == 1 and isinstance(t.left.args[0], ast.Constant) and t.left.args[0].value == "chunked"))
            and isinstance(t.comparators[0], ast.Constant) and t.comparators[0].value == 1]
     okc = any((isinstance(t.ops[0], ast.NotEq) and not pol) or (isinstance(t.ops[0], ast.Eq) and pol) for (t, pol) in cnt)
     whole = any(pol and isinstance(t, ast.Compare) and dotted(t.left) == lv and isinstance(t.ops[0], ast.Eq) for (t, pol) in guards_of(g, s))
@@ -308,7 +309,7 @@ def rule_r6(ctx):
           and isinstance(m.ast.value, ast.Constant) and m.ast.value.value is True and g.dominates(n, m)]
     ok = False
     for m in cc:
-        gs = [(norm(t), pol) for (t, pol) in guards_of(g, m) if g.dominates(n, [x for x in g.nodes if x.kind == "branch" and x.ast is t][0])]
+        gs = [(norm(t), pol) for (t, pol) in guards_of(g, m) if g.dominates(n, [x for x in g.nodes if x.kind == "branch" and x.ast is getattr(t, "_guard_of", t)][0])]
         if gs in ([("%s is not None" % var, True)], [("%s is None" % var, False)], [(var, True)], []):
             ok = True
     if ok:
